@@ -395,6 +395,16 @@ def _chunk(typ, body):
     return struct.pack('>I', len(body)) + typ + body + struct.pack('>I', zlib.crc32(typ + body) & 0xffffffff)
 
 
+def png_encode_rgb(w, h, rows):
+    """An 8-bit RGB picture without alpha channel (colour type 2; what a screenshot tool writes), from RGBA rows."""
+    raw = bytearray()
+    for row in rows:
+        raw.append(0)
+        for x in range(w):
+            raw += bytes(row[x * 4:x * 4 + 3])
+    return (PNG_SIG + _chunk(b'IHDR', struct.pack('>IIBBBBB', w, h, 8, 2, 0, 0, 0)) + _chunk(b'IDAT', zlib.compress(bytes(raw), 6)) + _chunk(b'IEND', b''))
+
+
 def png_encode(w, h, rows, filters=None, extra_chunks=(), idat_pieces=1, interlace=False):
     """rows: list of RGBA byte rows.  filters: optional list of filter types per row (0..4).  extra_chunks: ancillary chunks
     (type, data) placed between IHDR and IDAT, as image editors write them (gAMA, pHYs, bKGD, tEXt ...); idat_pieces: the compressed
